@@ -1,0 +1,17 @@
+//go:build verif
+
+package match
+
+// Contracts for the govc verifier (see /verif/DESIGN.md). This file contains comments only.
+
+// A matcher is modelled as a pure function of (matcher, document): the built-in matchers are deterministic;
+// for match.Custom this is an assumption about the user's callback (listed in the evidence).
+//@ func JSONMatcher.JSON(m, b) returns (out, errs)
+//@   nobody
+//@   assigns nothing
+//@   ensures out == mjOut(m, b) && len(errs) == mjNErr(m, b)
+//@
+//@ func YAMLMatcher.YAML(m, b) returns (out, errs)
+//@   nobody
+//@   assigns nothing
+//@   ensures out == myOut(m, b) && len(errs) == myNErr(m, b)
